@@ -2,7 +2,10 @@ package logger
 
 import (
 	"context"
+	"encoding"
+	"fmt"
 	"log/slog"
+	"reflect"
 )
 
 // Options is the common options for all handlers.
@@ -49,4 +52,31 @@ type Handler interface {
 	WithAttrs(attrs []slog.Attr) Handler
 	WithGroup(name string) Handler
 	Handle(context.Context, slog.Record) error
+}
+
+// panicText describes a panic raised by a method of the logged value v (Error, MarshalText).
+// Like log/slog and fmt: "<nil>" for a nil pointer receiver, otherwise "!PANIC: ...".
+func panicText(v any, r any) string {
+	if rv := reflect.ValueOf(v); rv.Kind() == reflect.Pointer && rv.IsNil() {
+		return "<nil>"
+	}
+	return fmt.Sprintf("!PANIC: %v", r)
+}
+
+func safeErrorString(err error) (s string) {
+	defer func() {
+		if r := recover(); r != nil {
+			s = panicText(err, r)
+		}
+	}()
+	return err.Error()
+}
+
+func safeMarshalText(m encoding.TextMarshaler) (data []byte, err error) {
+	defer func() {
+		if r := recover(); r != nil {
+			data, err = []byte(panicText(m, r)), nil
+		}
+	}()
+	return m.MarshalText()
 }
